@@ -68,20 +68,27 @@ def detect(mid, props, tier="quick"):
     meta = json.load(open(os.path.join(d, "meta.json")))
     if not props:
         props = [meta["property"]]
-    rc, out = sh(["git", "-C", "/repo", "status", "--porcelain"])
-    assert out.strip() == "", "/repo not clean: " + out
-    rc, out = sh(["git", "-C", "/repo", "apply", os.path.join(d, "patch.diff")])
+    # SEED_LANE=<dir>: run in <dir>/repo (a worktree of /repo) with <dir>/verif (a worktree of /verif)
+    # instead of /repo and /verif, so that other checks can run on the unchanged tree meanwhile
+    lane = os.environ.get("SEED_LANE")
+    repo, verif, env = "/repo", VERIF, None
+    if lane:
+        repo, verif = os.path.join(lane, "repo"), os.path.join(lane, "verif")
+        ENV["VERIF_REPO"] = repo
+    rc, out = sh(["git", "-C", repo, "status", "--porcelain"])
+    assert out.strip() == "", repo + " not clean: " + out
+    rc, out = sh(["git", "-C", repo, "apply", os.path.join(d, "patch.diff")])
     assert rc == 0, out
     results = {}
     try:
         for p in props:
             t0 = time.time()
-            rc, out = sh([os.path.join(VERIF, "check"), p, tier], cwd=VERIF, timeout=3600)
+            rc, out = sh([os.path.join(verif, "check"), p, tier], cwd=verif, timeout=3600)
             lines = [l for l in out.splitlines() if l.startswith("VIOLATION") or l.startswith("KNOWN")]
             results[p] = {"exit": rc, "lines": lines[:5], "s": round(time.time() - t0, 1)}
             print(p, rc, lines[:2], flush=True)
     finally:
-        sh(["git", "-C", "/repo", "checkout", "--", "."])
+        sh(["git", "-C", repo, "checkout", "--", "."])
     meta.setdefault("detected_by", {})
     for p, r in results.items():
         meta["detected_by"][p + ":" + tier] = {"detected": r["exit"] == 1, "report": r["lines"][:2]}
